@@ -23,7 +23,7 @@ class C16(object):
     exhaustive = {}
 
     def gen(self, rng, tier):
-        n_cases = 110 if tier == 'quick' else 1500
+        n_cases = 110 if tier == 'quick' else 2000
         for _ in range(n_cases):
             n = rng.choice([2, 3, 3])
             style = rng.choice(['block', 'function', 'full', 'sparse', 'giant'])
